@@ -45,10 +45,15 @@ type regCall struct {
 	Subs   []int64 // per locked sub-allocation: version of the sub-channel state, -1 if nil
 	SubIDs []int
 	Stamp  int64 // logical time of the call (concurrent mode)
+	Failed bool  // the scripted ledger refused this call
 }
 
 func (r regCall) String() string {
-	return fmt.Sprintf("Register(ch%d v%d, subs %v=%v)", r.Parent, r.PV, r.SubIDs, r.Subs)
+	s := fmt.Sprintf("Register(ch%d v%d, subs %v=%v)", r.Parent, r.PV, r.SubIDs, r.Subs)
+	if r.Failed {
+		s += " refused by the ledger"
+	}
+	return s
 }
 
 type scriptedSub struct {
@@ -78,6 +83,8 @@ type scriptedRS struct {
 	w     *world
 	subs  map[channel.ID]*scriptedSub
 	calls []regCall
+	// failNext: the next Register call returns an error (a transient ledger failure)
+	failNext bool
 }
 
 func (rs *scriptedRS) Subscribe(_ context.Context, id channel.ID) (channel.AdjudicatorSubscription, error) {
@@ -104,8 +111,12 @@ func (rs *scriptedRS) Register(_ context.Context, req channel.AdjudicatorReq, su
 		}
 	}
 	rs.mu.Lock()
+	c.Failed, rs.failNext = rs.failNext, false
 	rs.calls = append(rs.calls, c)
 	rs.mu.Unlock()
+	if c.Failed {
+		return fmt.Errorf("scripted ledger: transaction failed")
+	}
 	return nil
 }
 
@@ -181,7 +192,7 @@ type kind int
 const (
 	kPubP   kind = iota // Arg: 0 plain, 1/2: toggle the lock of sub Arg
 	kPubS               // Ch
-	kReg                // Ch, Arg: 0 version 0, 1 older, 2 equal, 3 newer
+	kReg                // Ch, Arg: 0 version 0, 1 older, 2 equal, 3 newer, 4 older and the ledger refuses the watcher's next Register call
 	kProg               // Ch
 	kConc               // Ch
 	kStartS             // Ch
@@ -204,7 +215,7 @@ func (o op) String() string {
 	case kPubS:
 		return fmt.Sprintf("publish(S%d)", o.Ch)
 	case kReg:
-		return fmt.Sprintf("registered(%s,%s)", chName(o.Ch), []string{"v0", "older", "equal", "newer"}[o.Arg])
+		return fmt.Sprintf("registered(%s,%s)", chName(o.Ch), []string{"v0", "older", "equal", "newer", "older+register-refused"}[o.Arg])
 	case kProg:
 		return fmt.Sprintf("progressed(%s)", chName(o.Ch))
 	case kConc:
@@ -230,7 +241,7 @@ func alphabet() []op {
 		a = append(a, op{K: kPubS, Ch: c}, op{K: kStartS, Ch: c})
 	}
 	for c := 0; c < nCh; c++ {
-		for v := 0; v < 4; v++ {
+		for v := 0; v < 5; v++ {
 			a = append(a, op{K: kReg, Ch: c, Arg: v})
 		}
 		a = append(a, op{K: kProg, Ch: c}, op{K: kConc, Ch: c}, op{K: kStop, Ch: c})
@@ -243,6 +254,11 @@ type obs struct {
 	events [nCh][]string
 	closed [nCh]bool
 	result string
+	// after a refused Register call the statement leaves open whether the event is relayed
+	// ("at most once"): optEvent on channel optCh may or may not be observed
+	optCh    int
+	optEvent string
+	optVer   int64
 }
 
 func (o obs) String() string {
@@ -315,7 +331,7 @@ func (w *world) expect(o op) obs {
 		c := o.Ch
 		v := w.regVersion(o)
 		if v < m[c].pub && v >= m[c].regVer {
-			call := regCall{Parent: 0, PV: m[0].pub}
+			call := regCall{Parent: 0, PV: m[0].pub, Failed: o.Arg == 4}
 			for _, s := range m[0].locked {
 				call.SubIDs = append(call.SubIDs, s)
 				if m[s].watched {
@@ -325,6 +341,13 @@ func (w *world) expect(o op) obs {
 				}
 			}
 			e.regs = append(e.regs, call.String())
+			if call.Failed {
+				// nothing was registered: the bookkeeping must not move
+				if m[c].relayed < v {
+					e.optCh, e.optEvent, e.optVer = c, fmt.Sprintf("registered(v%d)", v), v
+				}
+				break
+			}
 			m[0].regVer = m[0].pub
 			for _, s := range m[0].locked {
 				if m[s].watched {
@@ -378,7 +401,7 @@ func (w *world) regVersion(o op) int64 {
 	switch o.Arg {
 	case 0:
 		return 0
-	case 1:
+	case 1, 4:
 		if p == 0 {
 			return 0
 		}
@@ -436,7 +459,13 @@ func (w *world) do(o op, lockedAfter []int, pubAfter int64, regV int64) (out obs
 	case kPubS:
 		inconclusive = publish(o.Ch, w.tx(o.Ch, pubAfter, nil))
 	case kReg:
+		w.rs.mu.Lock()
+		w.rs.failNext = o.Arg == 4
+		w.rs.mu.Unlock()
 		inconclusive = deliver(o.Ch, channel.NewRegisteredEvent(w.ids[o.Ch], &channel.ElapsedTimeout{}, uint64(regV), nil, nil))
+		w.rs.mu.Lock()
+		w.rs.failNext = false
+		w.rs.mu.Unlock()
 	case kProg:
 		inconclusive = deliver(o.Ch, channel.NewProgressedEvent(w.ids[o.Ch], &channel.ElapsedTimeout{}, &channel.State{ID: w.ids[o.Ch]}, 0))
 	case kConc:
@@ -604,6 +633,16 @@ func runHistory(r *ev.Run, rng *rand.Rand, ops []op) bool {
 		}
 		if o.K == kStop && want.result == "sub-channels-present" {
 			r.Count("refused_stops", 1)
+		}
+		if want.optEvent != "" {
+			if ev := got.events[want.optCh]; len(ev) == 1 && ev[0] == want.optEvent {
+				want.events[want.optCh] = ev
+				w.m[want.optCh].relayed = want.optVer
+				r.Count("events_relayed_after_a_refused_register_call", 1)
+			}
+		}
+		if o.K == kReg && o.Arg == 4 && len(got.regs) > 0 {
+			r.Count("register_calls_refused_by_the_scripted_ledger", 1)
 		}
 		if want.String() != got.String() {
 			class := "mismatch/" + strings.SplitN(o.String(), "(", 2)[0]
